@@ -787,6 +787,28 @@ def bytes_method(I, obj, name, args, kw):
                     raise OutOfReach("reverse of an opaque bytearray")
             obj.rope = R.Rope(segs)
             return None
+    if name in ("rjust", "ljust", "zfill") and 1 <= len(args) <= 2 and not kw:
+        # pad with one fill byte up to `width` (no change when already at least that long); only the zero fill byte has a rope
+        # segment of symbolic length, other fill bytes need a concrete amount of padding
+        width = I.as_int(args[0])
+        fill = b"0" if name == "zfill" else (I.rope_of(args[1]).concrete() if len(args) > 1 else b" ")
+        if name == "zfill" or fill is None or len(fill) != 1:
+            raise OutOfReach(f"bytes.{name} with this fill")
+        rope = I.rope_of(obj)
+        n = rope.length()
+        if I.branch(Z(width) <= Z(n)):
+            return SBytes(rope, "bytearray" if getattr(obj, "kind", "") == "bytearray" else "bytes")
+        k = simp(Z(width) - Z(n))
+        kc = conc_int(k)
+        if fill == b"\x00":
+            pad = R.Rope([R.Zeros(kc if kc is not None else k)])
+        elif kc is not None and kc <= 4096:
+            pad = R.Rope.lit(fill * kc)
+        else:
+            raise OutOfReach(f"bytes.{name} with a symbolic amount of non-zero padding")
+        out = (pad + rope) if name == "rjust" else (rope + pad)
+        _copied(I, out)
+        return SBytes(out, "bytearray" if getattr(obj, "kind", "") == "bytearray" else "bytes")
     if name == "replace":
         h = I.registry.hooks.get("bytes_replace")
         old, new = args[0], args[1]
